@@ -43,6 +43,12 @@ def cal_spec(kind: str) -> Spec:
         r.hours, r.tz, start = ["mon - fri 9:00 - 17:00"], "America/New_York", datetime(2025, 3, 3)
     elif kind == "ny-nov":
         r.hours, r.tz, start = ["mon - fri 9:00 - 17:00"], "America/New_York", datetime(2025, 10, 27)
+    elif kind == "la-mar-night":
+        r.hours, r.tz, start, length = ["mon - sun 22:00 - 6:00"], "America/Los_Angeles", datetime(2025, 3, 6), "1w"
+    elif kind == "la-nov-evening":
+        r.hours, r.tz, start, length = ["mon - sun 18:00 - 23:00"], "America/Los_Angeles", datetime(2025, 10, 30), "1w"
+    elif kind == "berlin-mar-early":
+        r.hours, r.tz, start, length = ["mon - sun 0:00 - 4:00", "mon - sun 21:00 - 24:00"], "Europe/Berlin", datetime(2025, 3, 27), "1w"
     elif kind == "kiritimati":
         r.hours, r.tz = ["mon - fri 8:00 - 16:00"], "Pacific/Kiritimati"
     elif kind == "pagopago":
@@ -74,7 +80,8 @@ def on_calendar(spec, vals, obs, info):
     return fails
 
 
-KINDS = ["own", "shift", "default", "vacation", "leave1", "leaveN", "resvac", "resvacN", "tokyo", "ny-mar", "ny-nov", "kiritimati", "pagopago", "night", "night1", "res900"]
+KINDS = ["own", "shift", "default", "vacation", "leave1", "leaveN", "resvac", "resvacN", "tokyo", "ny-mar", "ny-nov", "la-mar-night", "la-nov-evening", "berlin-mar-early",
+         "kiritimati", "pagopago", "night", "night1", "res900"]
 
 
 def cells(tier: str) -> dict:
@@ -82,7 +89,7 @@ def cells(tier: str) -> dict:
     for kind in KINDS:
         def f(kind=kind):
             s = cal_spec(kind)
-            hi = 30 * H if s.resolution == 3600 else 8 * H
+            hi = (30 * H if s.length == "3w" else 20 * H) if s.resolution == 3600 else 8 * H
             return Cell(s, {"e0": (60, hi), "e1": (60, hi)}, [on_calendar])
         out[f"cal[{kind}]"] = f
     return out
